@@ -119,8 +119,13 @@ def run_case(case):
             return float(altitude_from_pressure_isa_bada4(np.array([p * 100.0]))[0])
 
         c, o = case['c'], case['o']
-        s5, c5 = DIRS[c['h'] - 1]
-        heading = math.degrees(math.atan2(s5, c5)) % 360.0
+        deg = lambda h: math.degrees(math.atan2(*DIRS[h - 1])) % 360.0  # noqa: E731
+        # heading cases: an explicit heading (or none) on a ground-track point with its own azimuth
+        explicit = 'th' in c
+        eff = (c['h'] if c['given'] else c['th']) if explicit else c['h']
+        s5, c5 = DIRS[eff - 1]
+        heading = deg(eff)
+        track_az = deg(c['th']) if explicit else heading
         devs = []
         for with_time in (False, True):
             if c['kind'] == 'uniform':
@@ -143,10 +148,11 @@ def run_case(case):
                     alt = float(altitude_from_pressure_isa_bada4(np.array([80.0 * 100.0]))[0])
                 if side == 'below':
                     alt = float(altitude_from_pressure_isa_bada4(np.array([450.0 * 100.0]))[0])
-            pt = GroundTrack.Point(Location(longitude=lon, latitude=lat), heading)
-            label = f'heading {heading:.4f} deg (sin, cos = {s5}/5, {c5}/5), TAS {c["tas"]}, {"with" if with_time else "without"} time axis, case {c}'
+            pt = GroundTrack.Point(Location(longitude=lon, latitude=lat), track_az)
+            given = (deg(c['h']) if c['given'] else None) if explicit else (heading if with_time else None)
+            label = f'heading {heading:.4f} deg (sin, cos = {s5}/5, {c5}/5; given: {given}, track azimuth {track_az:.4f}), TAS {c["tas"]}, {"with" if with_time else "without"} time axis, case {c}'
             try:
-                gs = w.get_ground_speed(time=when, gt_point=pt, altitude=alt, true_airspeed=float(c['tas']), azimuth=heading if with_time else None)
+                gs = w.get_ground_speed(time=when, gt_point=pt, altitude=alt, true_airspeed=float(c['tas']), azimuth=given)
                 refused = False
             except ValueError:
                 refused = True
